@@ -37,6 +37,16 @@ struct SS {
     stalled: bool,
     late: u64,
     timeouts: u64,
+    phase: u8,
+    phase_steps: u64,
+    phase_limit: u64,
+    spawner_budget: u64,
+    victim: usize,
+    victim_after: u64,
+    victim_yields: u64,
+    script: Vec<u8>,
+    /// (choice taken, number of alternatives) at every decision point with >= 2 runnable threads
+    decisions: Vec<(u8, u8)>,
     last_progress: Instant,
     runs: u32,
 }
@@ -53,6 +63,16 @@ pub struct Sched {
 pub const STALL_SECS: u64 = 60;
 
 impl Sched {
+    pub fn with_script(script: Vec<u8>) -> Sched {
+        let s = Sched::new(Strategy::Script, 0);
+        s.lock().script = script;
+        s
+    }
+
+    pub fn decisions(&self) -> Vec<(u8, u8)> {
+        self.lock().decisions.clone()
+    }
+
     pub fn new(strategy: Strategy, seed: u64) -> Sched {
         let mut rng = Rng::new(seed);
         let change_points = (0..3).map(|_| rng.below(400)).collect();
@@ -69,6 +89,15 @@ impl Sched {
                 stalled: false,
                 late: 0,
                 timeouts: 0,
+                phase: 0,
+                phase_steps: 0,
+                phase_limit: 0,
+                spawner_budget: 0,
+                victim: 0,
+                victim_after: 0,
+                victim_yields: 0,
+                script: vec![],
+                decisions: vec![],
                 last_progress: Instant::now(),
                 runs: 0,
             }),
@@ -119,6 +148,13 @@ impl Sched {
         });
         g.turn = 0;
         g.runs += 1;
+        g.victim = 1 + g.rng.below(4) as usize;
+        g.victim_after = 1 + g.rng.below(4);
+        g.victim_yields = 0;
+        g.phase = 0;
+        g.phase_steps = 0;
+        g.phase_limit = 10 + g.rng.below(40);
+        g.spawner_budget = 1 + g.rng.below(4);
         g.picks.push(0xFE); // run separator
         g.last_progress = Instant::now();
     }
@@ -235,6 +271,100 @@ impl Sched {
                     .map(|k| (start + k) % n)
                     .find(|i| runnable.contains(i))
                     .unwrap_or(runnable[0])
+            }
+            Strategy::LagGrow => {
+                let nworkers = g.parts.len() - 1;
+                let victim = g.victim;
+                if g.phase == 0 && (!has_spawner || (cur == 0 && nworkers >= 4)) {
+                    g.phase = 1;
+                    g.phase_steps = 0;
+                }
+                if cur == victim && g.phase >= 1 {
+                    g.victim_yields += 1;
+                }
+                let starved = g.victim_yields >= g.victim_after;
+                let others: Vec<usize> = workers.iter().copied().filter(|&i| i != victim).collect();
+                if g.phase == 1 {
+                    g.phase_steps += 1;
+                    if (g.phase_steps > g.phase_limit && (starved || !workers.contains(&victim)))
+                        || (others.is_empty() && (starved || !workers.contains(&victim)))
+                    {
+                        g.phase = 2;
+                        g.phase_steps = 0;
+                    }
+                }
+                if g.phase == 2 {
+                    // the spawner decides again: let it spawn `spawner_budget` more workers (with grown chunks)
+                    if g.phase_steps == 0 {
+                        g.phase_steps = nworkers as u64 + 1;
+                    }
+                    if !has_spawner || nworkers as u64 + 1 >= g.phase_steps + g.spawner_budget {
+                        g.phase = 3;
+                    }
+                }
+                match g.phase {
+                    0 => 0,
+                    1 => {
+                        if !starved && workers.contains(&victim) && (others.is_empty() || g.rng.chance(1, 3)) {
+                            victim
+                        } else if !others.is_empty() {
+                            sticky(g, &others)
+                        } else if has_spawner {
+                            0
+                        } else {
+                            victim
+                        }
+                    }
+                    2 => 0,
+                    _ => {
+                        if let Some(m) = others.iter().max() {
+                            *m
+                        } else if has_spawner {
+                            0
+                        } else {
+                            victim
+                        }
+                    }
+                }
+            }
+            Strategy::StarveOne => {
+                if cur == g.victim {
+                    g.victim_yields += 1;
+                }
+                let starved = g.victim_yields >= g.victim_after;
+                let victim = g.victim;
+                let others: Vec<usize> = workers.iter().copied().filter(|&i| !(starved && i == victim)).collect();
+                if cur == victim && !starved && workers.contains(&victim) {
+                    victim
+                } else if !starved && workers.contains(&victim) && g.rng.chance(1, 2) {
+                    victim
+                } else if !others.is_empty() {
+                    sticky(g, &others)
+                } else if has_spawner {
+                    0
+                } else {
+                    victim
+                }
+            }
+            Strategy::Script => {
+                // alternatives in a canonical order: the current thread first (choice 0 = no preemption), then by pid
+                let mut alts: Vec<usize> = vec![];
+                if cur_ok {
+                    alts.push(cur);
+                }
+                for &i in &runnable {
+                    if !alts.contains(&i) {
+                        alts.push(i);
+                    }
+                }
+                if alts.len() >= 2 {
+                    let k = g.decisions.len();
+                    let c = if k < g.script.len() { (g.script[k] as usize).min(alts.len() - 1) } else { 0 };
+                    g.decisions.push((c as u8, alts.len().min(255) as u8));
+                    alts[c]
+                } else {
+                    alts[0]
+                }
             }
             Strategy::Pct => {
                 if cur_ok && g.change_points.contains(&g.steps) {
